@@ -66,7 +66,8 @@ def prepare(job, d):
     for asset, h in job["assets"].items():
         n = len(h)
         perm = sh.get("row_perm", {}).get(asset) if isinstance(sh.get("row_perm"), dict) else None
-        rows = odsio.sheet_rows(h, layout, rnd, order=tuple(sh.get("order", ("in", "out", "intra"))), blanks=tuple(sh.get("blanks", (0, 1, 0, 0))), asset=asset,
+        blanks = sh.get("blanks_by_asset", {}).get(asset) or sh.get("blanks", (0, 1, 0, 0))
+        rows = odsio.sheet_rows(h, layout, rnd, order=tuple(sh.get("order", ("in", "out", "intra"))), blanks=tuple(blanks), asset=asset,
                                 row_perm=perm, decoys=sh.get("decoys", False))
         fault = job.get("sheet_fault", {}).get(asset)
         if fault:
